@@ -31,7 +31,7 @@ func C02(e *simkern.Env) {
 		sv = "3.4.5"
 	}
 	ops := pipew.GenOps(tp, pipew.GenCfg{MinOps: 1, MaxOps: maxOps, Bad: true, BadStream: true, FailBias: 5, InitFail: true,
-		Cancel: true, Cast: true, WriteAhead: true, Levels: true, MaxTurns: 5, NonceBase: 1000, ServerVersion: sv})
+		Cancel: true, Cast: true, BadCast: true, WriteAhead: true, Levels: true, MaxTurns: 5, NonceBase: 1000, ServerVersion: sv})
 	e.Knob("server_protocol_version", sv)
 	kn := pipew.DrawKnobs(tp)
 	e.Knob("frag", kn.Frag)
